@@ -869,6 +869,94 @@ for _n, _c in WITNESSES.items():
     _c['aspect'] = 'uses' if _n.startswith('uses') else 'live' if _n.startswith('live') else 'defines'
 
 # =====================================================================================================
+# multi-step stream: analysis attached -> IR edited in place -> analysis requested again
+
+def subst_expr(e, x, rep):
+    if e[0] == 'var': return rep if e[1] == x else e
+    k = e[0]
+    if k in ('py', 'int', 'log'): return e
+    if k in ('sum', 'prod'): return e[:2] + [subst_expr(c, x, rep) for c in e[2:]]
+    if k in ('quot', 'pow'): return e[:2] + [subst_expr(c, x, rep) for c in e[2:4]]
+    if k == 'cmp': return e[:2] + [subst_expr(c, x, rep) for c in e[2:4]]
+    if k in ('and', 'or'): return [k] + [subst_expr(c, x, rep) for c in e[1:]]
+    if k == 'not': return [k, subst_expr(e[1], x, rep)]
+    if k == 'call': return e[:2] + [subst_expr(c, x, rep) for c in e[2:]]
+    raise ValueError(e)
+
+def subst_stmts(ss, x, rep):
+    out = []
+    f = lambda e: subst_expr(e, x, rep)
+    for s in ss:
+        k = s[0]
+        if k == 'assign': out.append([k, s[1], f(s[2])])
+        elif k == 'store': out.append([k, s[1], [f(i) for i in s[2]], f(s[3])])
+        elif k == 'do': out.append([k, s[1], f(s[2]), f(s[3]), None if s[4] is None else f(s[4]), subst_stmts(s[5], x, rep)])
+        elif k == 'while': out.append([k, f(s[1]), subst_stmts(s[2], x, rep)])
+        elif k == 'if': out.append([k, f(s[1]), subst_stmts(s[2], x, rep), subst_stmts(s[3], x, rep)])
+        elif k == 'call': out.append([k, s[1], [f(a) for a in s[2]]])
+        elif k == 'select': out.append([k, f(s[1]), [[vals, subst_stmts(b, x, rep)] for vals, b in s[2]], subst_stmts(s[3], x, rep)])
+        else: out.append(s)
+    return out
+
+def written_names(ss):
+    wr = set()
+    for s in ss:
+        if s[0] in ('assign', 'store', 'do'): wr.add(s[1])
+        if s[0] == 'call': wr |= {a[1] for a in s[2] if a[0] == 'var'}
+        for b in sub_bodies(s): wr |= written_names(b)
+    return wr
+
+def the_unit(case):
+    """the routine whose sets are requested: the case's unit after the in-place edits of a multi-step case"""
+    unit = case['unit']
+    ed = case.get('edit')
+    if not ed: return unit
+    body = unit['body']
+    if ed.get('subst'):
+        x, z = ed['subst']
+        body = subst_stmts(body, x, ['sum', False, ['var', x], ['var', z]])
+    if ed.get('append'):
+        body = body + [ed['append']]
+    return dict(unit, body=body)
+
+def gen_edit(rng, unit):
+    wr = written_names(unit['body'])
+    ro = [x for x in SCAL if x not in wr and any(x in evars_stmt(s) for s in preorder(desugar(unit['body'])))]
+    ed = {'proto': rng.choice(['nested', 'nested', 'sequential', 'nested-plain'])}
+    if ed['proto'] != 'nested-plain':
+        if ro and rng.random() < 0.8:
+            x = rng.choice(ro)
+            ed['subst'] = [x, rng.choice([v for v in SCAL if v != x])]
+        if 'subst' not in ed or rng.random() < 0.5:
+            y, u, v = rng.sample(SCAL, 3)
+            ed['append'] = ['assign', y, ['sum', False, ['var', u], ['prod', False, ['var', v], ['int', 2]]]]
+    return ed
+
+def evars_stmt(s):
+    """symbols of the expressions of the statement itself (not of nested statements)"""
+    k = s[0]
+    if k == 'assign': return evars(s[2])
+    if k == 'store': return uni(evars, s[2]) | evars(s[3])
+    if k == 'do': return evars(s[2]) | evars(s[3]) | (evars(s[4]) if s[4] is not None else set())
+    if k in ('while', 'if'): return evars(s[1])
+    if k == 'call': return uni(evars, s[2])
+    return set()
+
+def apply_edit(r, ed):
+    """the same edits on the real IR, in place (the body Section object survives)"""
+    from loki import SubstituteExpressions
+    from loki.expression import symbols as sym
+    from loki import ir
+    from .. import bridge_expr as B
+    if ed.get('subst'):
+        x, z = ed['subst']
+        vx, vz = r.variable_map[x], r.variable_map[z]
+        SubstituteExpressions({vx: sym.Sum((vx, vz))}, inplace=True).visit(r.body)
+    if ed.get('append'):
+        _, y, e = ed['append']
+        r.body.append(ir.Assignment(lhs=r.variable_map[y], rhs=B.build(e, scope=r)))
+
+# =====================================================================================================
 
 class C26(Property):
     id = 'C26'
@@ -881,7 +969,8 @@ class C26(Property):
             'usually CASE DEFAULT, a variable written in one branch and read in a later one), inserted bounded DO WHILE loops, define-then-use patterns (must-define, '
             'define in both branches, use-define-use, element store/read, the F9 conditional-define pattern) and CALLs to 1-2 generated callees '
             'with every dummy intent (in/out/inout/none, scalar and array dummies, with and without enrichment, expression and array-element '
-            'actuals); per case 3 stores; a case is non-trivial when some node execution wrote or read a variable; distinct = distinct program text')
+            'actuals); plus a multi-step stream (analysis attached, IR edited in place by expression substitution / appended assignment, analysis requested '
+            'again through a nested or a sequential context; nested contexts without edit) compared against the edited program; per case 3 stores; a case is non-trivial when some node execution wrote or read a variable; distinct = distinct program text')
     modelled_not_verified = [
         'Loki frontend (fparser) and Subroutine.enrich are used as they are; symbols are compared as lower-case names',
         'SELECT CASE is modelled through its IF/ELSE-IF encoding (proved to carry the sets of visit_MultiConditional); MaskedStatement (WHERE), Associate, '
@@ -899,32 +988,55 @@ class C26(Property):
             yield c
         for c in SELECT_FIXED:
             yield dict(c)
-        n = 160 if tier == 'quick' else 1000
+        n = 140 if tier == 'quick' else 1000
         for i in range(n):
             unit, callees = gen_unit(rng, tier, select=True)
             yield {'kind': 'calls' if callees else 'plain', 'mode': 'class', 'unit': unit, 'callees': callees,
+                   'stores': gen_stores(rng, unit, 3)}
+        # multi-step: attach, edit the IR in place, request the analysis again (nested / sequential), or nest without edits
+        for i in range(36 if tier == 'quick' else 300):
+            unit, callees = gen_unit(rng, tier, select=True)
+            ed = gen_edit(rng, unit)
+            yield {'kind': 'reattach-' + ed['proto'], 'mode': 'class', 'unit': unit, 'callees': callees, 'edit': ed,
                    'stores': gen_stores(rng, unit, 3)}
 
     # ------------------------------------------------------------------ implementation
     def run_impl(self, case):
         from loki.analyse import dataflow_analysis_attached
+        from loki.analyse import attach_dataflow_analysis, detach_dataflow_analysis
         r = loki_routine(case)
         out = {}
-        with dataflow_analysis_attached(r):
+        def export():
             nodes = [('section', r.body)] + loki_walk(r.body.body)
             out['kinds'] = [k for k, _ in nodes]
             out['sets'] = [[symnames(n.defines_symbols), symnames(n.uses_symbols), symnames(n.live_symbols)] for _, n in nodes]
+        ed = case.get('edit')
+        if not ed:
+            with dataflow_analysis_attached(r):
+                export()
+        elif ed['proto'] == 'sequential':
+            # persistent attach, in-place edit, then the analysis is requested through the context manager
+            attach_dataflow_analysis(r)
+            apply_edit(r, ed)
+            with dataflow_analysis_attached(r):
+                export()
+        else:
+            # an enclosing context, (in-place edit,) a nested request
+            with dataflow_analysis_attached(r):
+                apply_edit(r, ed)
+                with dataflow_analysis_attached(r):
+                    export()
         return out
 
     # ------------------------------------------------------------------ model
     def _shape(self, case):
-        return ['section'] + real_kinds(desugar(case['unit']['body']))
+        return ['section'] + real_kinds(desugar(the_unit(case)['body']))
 
     def _trace0(self, case):
         """names written / read before written by the whole body on the first store (None if the run is stuck)"""
         try:
             tr = Tracer(unit_procs(case))
-            t = tr.run(desugar(case['unit']['body']), store_from_json(case['stores'][0]))
+            t = tr.run(desugar(the_unit(case)['body']), store_from_json(case['stores'][0]))
             return lnames(t[0]), lnames(t[1])
         except minif.Stuck:
             return None
@@ -932,7 +1044,7 @@ class C26(Property):
     def model_term(self, case, out):
         if out.get('kinds') != self._shape(case):
             raise ValueError('node shape differs: %s vs %s' % (out.get('kinds'), self._shape(case)))
-        unit = case['unit']
+        unit = the_unit(case)
         procs, sg, mw = unit_procs(case), unit_sigs(case), unit_musts(case)
         D = desugar(unit['body'])
         body = minif.stmts_model(D)
@@ -948,14 +1060,14 @@ class C26(Property):
         return '(' + ' && '.join(terms) + ')'
 
     def show_model(self, case, out):
-        unit = case['unit']
+        unit = the_unit(case)
         return ['annot_routine %s %s %s' % (coq(sg_model(unit_sigs(case))), coq(args_model(unit)), coq(minif.stmts_model(desugar(unit['body']))))]
 
     # ------------------------------------------------------------------ oracle
     def oracle(self, case, out):
         if '__exception__' in out:
             return 'implementation raised %s: %s' % (out['__exception__'], out.get('msg'))
-        unit = case['unit']
+        unit = the_unit(case)
         if out.get('kinds') != self._shape(case):
             return None   # reported through the tie
         aspect = case.get('aspect') if case.get('mode') == 'full' else None
@@ -1015,7 +1127,7 @@ class C26(Property):
         except Exception:
             return None
         if not t or not (t[0] or t[1]): return None
-        return unit_fortran(case['unit']) + repr(sorted(unit_sigs(case).items()))
+        return unit_fortran(the_unit(case)) + repr(sorted(unit_sigs(case).items())) + repr(case.get('edit', {}).get('proto'))
 
     def search(self, rng, bad_cases):
         # disagreeing programs re-checked as stated (mode full) on fresh stores, plus their sub-bodies as routines of their own
